@@ -625,7 +625,7 @@ func rulePendingKeys(c *Check, a *Analysis, rule string) {
 			o = p.canon(o)
 			switch {
 			case isLoadOf(o, "Conn", "seq"), isLoadOf(o, "Context", "Seq"), isLoadOf(o, "stream", "seq"):
-			case isRangeKeyOf(o, "Conn", "pending", p), isRangeKeyOf(o, "Conn", "streams", p):
+			case isRangeKeyOf(o, "Conn", "pending", p):
 			default:
 				if _, isPrm := o.(*ssa.Parameter); isPrm {
 					continue // handed down by a caller that is checked at its own site
